@@ -9,10 +9,23 @@ use swiftness_pow::config::Config as PowConfig;
 use swiftness_stark::config::StarkConfig;
 
 /// model value in F_P -> real field element (values above P/2 are "negative": p - (P - x))
+/// For the "hi.*" deviations the model unit Hi stands for a huge power of two (2^64, 2^128, 2^192): the signed model
+/// value is split as q * Hi + r with |r| <= Hi/2 and lifted to q * unit + r, which keeps every sum the model forms exact.
 pub fn lift(v: &Value, p: u64) -> Felt {
     let x = v.as_u64().expect("model number");
-    if x > p / 2 { Felt::ZERO - Felt::from(p - x) } else { Felt::from(x) }
+    let signed = |m: u64, neg: bool| if neg { Felt::ZERO - Felt::from(m) } else { Felt::from(m) };
+    let (mag, neg) = if x > p / 2 { (p - x, true) } else { (x, false) };
+    match HI.with(|h| h.get()) {
+        None => signed(mag, neg),
+        Some((hi, unit_log)) => {
+            let q = (mag + hi / 2) / hi;
+            let (r, rneg) = if mag >= q * hi { (mag - q * hi, false) } else { (q * hi - mag, true) };
+            let v = Felt::from(q) * Felt::TWO.pow(unit_log) + signed(r, rneg);
+            if neg { Felt::ZERO - v } else { v }
+        }
+    }
 }
+thread_local! { static HI: std::cell::Cell<Option<(u64, u64)>> = const { std::cell::Cell::new(None) }; }
 fn table(v: &Value, p: u64) -> TConfig {
     TConfig { n_columns: lift(&v["ncols"], p), vector: VConfig { height: lift(&v["vec"]["height"], p), n_verifier_friendly_commitment_layers: lift(&v["vec"]["nvf"], p) } }
 }
@@ -44,6 +57,12 @@ pub fn run(args: &[String]) {
         if line.trim().is_empty() { continue; }
         let case: Value = serde_json::from_str(line).unwrap();
         let p = case["P"].as_u64().unwrap();
+        let is_hi = case["devs"].as_array().map(|d| d.iter().any(|x| x[0].as_str().map(|n| n.starts_with("hi.")).unwrap_or(false))).unwrap_or(false);
+        let units: Vec<Option<u64>> = if is_hi { vec![Some(64), Some(128), Some(192)] } else { vec![None] };
+        for unit in units {
+        HI.with(|h| h.set(unit.map(|u| (case["hi"].as_u64().expect("hi unit"), u))));
+        let mut case = case.clone();
+        if let Some(u) = unit { case["hi_unit_log2"] = json!(u); }
         let cfg = config_of(&case["cfg"], p);
         let sec = lift(&case["sec"], p);
         let (n1, n2) = (lift(&case["n1"], p), lift(&case["n2"], p));
@@ -63,6 +82,8 @@ pub fn run(args: &[String]) {
             panics += 1;
             out.line(&json!({"i": i, "ok": false, "kind": "panic", "where": w, "why": format!("StarkConfig::validate panicked at {w}"), "case": case}));
         }
+        }
+        HI.with(|h| h.set(None));
     }
     out.line(&json!({"summary": true, "cases": cases, "bad": bad, "panics": panics}));
 }
